@@ -299,6 +299,27 @@ def oracle(cap, known_dup_ok=False):
     for x in b.outgoing:
       if x not in nodes:
         f.append("edge from %r to a block outside the graph" % b.id)
+  # basic blocks: control leaves a block only at its last instruction (Block docstring); the one place the
+  # code deliberately does not cut is the yield_value_block that follows a lone SEND block
+  for bi, b in enumerate(nodes):
+    in_yv = bi > 0 and len(nodes[bi - 1].code) == 1 and nodes[bi - 1].code[0].__class__.__name__ == "SEND"
+    if in_yv:
+      continue
+    for op in b.code[:-1]:
+      nm = op.__class__.__name__
+      if nm in jumps or nm in CPY_NO_FALLTHROUGH or op.block_target is not None:
+        f.append("op %d %s transfers control but is not the last op of its block" % (op.index, nm))
+  # no fall-through edge out of an instruction that never falls through
+  for bi, b in enumerate(nodes):
+    if not b.code or b in merged or bi + 1 >= len(nodes):
+      continue
+    last, first = b.code[-1], b.code[0]
+    if last.__class__.__name__ in CPY_NO_FALLTHROUGH and nodes[bi + 1] in b.outgoing:
+      nb = nodes[bi + 1]
+      legit = [t for t in (last.target, last.block_target, first.target) if t is not None]
+      sendish = len(nb.code) == 1 and nb.code[0].__class__.__name__ == "SEND"
+      if not any(nb.code and t is nb.code[0] for t in legit) and not sendish:
+        f.append("fall-through edge %r -> %r after %s" % (b.id, nb.id, last.__class__.__name__))
   # (5) order = blocks reachable from the entry, once each, a predecessor before each non-entry block
   if nodes:
     reach, st = set(), [nodes[0]]
@@ -499,7 +520,7 @@ class ProgGen:
       nctx = dict(fn=True, asyn=asyn, gen=gen, loop=False)
       args = r.choice(["", "x", "x, y=1", "*a, **k", "x, /, y, *, z=2"])
       deco = [ind + "@d"] if r.random() < 0.15 else []
-      body = self.block(sub + 1, nctx, i2, 1, 4)
+      body = self.block(sub, nctx, i2, 1, 4)
       if gen:
         yl = r.choice(["yield " + self.name(), "yield", "%s = yield %s" % (self.name(), self.name())])
         if not asyn and r.random() < 0.5:
@@ -539,8 +560,8 @@ class ProgGen:
     self.fn = 0
     ctx = dict(fn=False, asyn=False, gen=False, loop=False)
     lines = []
-    for _ in range(self.r.randint(2, 6)):
-      lines += self.stmt(self.r.choice([2, 3, 3, 4]), ctx, "")
+    for _ in range(self.r.randint(2, 5)):
+      lines += self.stmt(self.r.choice([2, 2, 3, 3, 4]), ctx, "")
     return "\n".join(lines) + "\n"
 
 
@@ -985,6 +1006,7 @@ def chunks(xs, k):
 
 def correspond(res, rng, tier):
   t0 = time.time()
+  res.cov["prove_stage_s"] = round(t0 - res.t0, 1)
   common.ensure_driver("drv_c16")
   cls_index = class_index()
   disagreements = []
@@ -1004,6 +1026,7 @@ def correspond(res, rng, tier):
   prem = collections.Counter()
   hashes = set()
   samples = []
+  pt()   # import the real modules once; the forked workers inherit them
   with multiprocessing.Pool(NPROC) as pool:
     for st, mism, hs, pr, smp in pool.imap_unordered(_worker_sources, jobs):
       stats.update(st)
